@@ -223,6 +223,9 @@ func (b *Block) EncodePrimitiveBlock(dmg Damage) []byte {
 	rng := rand.New(rand.NewPCG(b.OrderSeed, 99))
 	shuffle := b.OrderSeed%3 != 0 // a third of the blocks keep canonical field order
 	oobIdx := uint64(len(st.list)) + uint64(dmg.Arg)
+	if dmg.Arg >= 1<<31 {
+		oobIdx = uint64(dmg.Arg) // absolute index (bit 31 set: negative when read as int32)
+	}
 
 	var fs []field
 	// string table (a required field: leaving it out makes every string reference dangle)
@@ -246,6 +249,9 @@ func (b *Block) EncodePrimitiveBlock(dmg Damage) []byte {
 	}
 	if b.LonOffset != nil {
 		fs = append(fs, field{func(e *enc) { e.varint(20, uint64(*b.LonOffset)) }})
+	}
+	if b.PadBytes > 0 {
+		fs = append(fs, field{func(e *enc) { e.bytes(95, make([]byte, b.PadBytes)) }})
 	}
 	if b.UnknownFields {
 		fs = append(fs, field{func(e *enc) { e.varint(90, 12345) }})
